@@ -19,6 +19,7 @@
  5. Self-tests: a corrupted history must be rejected.
 """
 import json
+import re
 import os
 import random
 from concurrent.futures import ThreadPoolExecutor
@@ -365,9 +366,10 @@ def run(c):
 
     # ---- 3b. maintenance calls and counter stress (spec/Trace_PoolMaintenance.tla) -----------------------
     mout = os.path.join(rd, "maint.ndjson")
-    rc, o = vlib.sh("%s maint %d %d %s" % (exe, c.seed, 60 if tier == "quick" else 1500, mout), timeout=900)
+    rc, o = vlib.sh("%s maint %d %d %s" % (exe, c.seed, 60 if tier == "quick" else 1500, mout), timeout=150)
     if rc != 0:
-        c.violation("containers:maintenance:abort", "maintenance / stress driver of the containers failed (rc=%d): %s" % (rc, o[-300:]), {})
+        c.violation("containers:maintenance:abort", "maintenance / stress driver of the containers did not finish (rc=%d; 124 = a call never "
+                    "returned, e.g. get_free_element on a pool whose free slots stay locked): %s" % (rc, o[-300:]), {})
     else:
         mrecs = vlib.read_ndjson(mout)
         stm, rm = vlib.validate_trace("Trace_PoolMaintenance.tla", "Trace_PoolMaintenance.cfg", mout, rd, tag="maint", dfs=False)
